@@ -33,6 +33,8 @@ type Monitor struct {
 	Dropped int
 	// CloseDelay makes Close() of every connection take this long
 	CloseDelay time.Duration
+	// ExcFor returns the exception code the device answers the request with (0: normal reply)
+	ExcFor func(r spec.Req) uint8
 	// IdleRead: how long a serial Read blocks when no reply byte is readable (a port configured with a read timeout); 0: 300 us
 	IdleRead time.Duration
 	// FlushDelay makes Flush() take this long; Flushes counts calls, FlushDiscarded the unread reply bytes thrown away by them
@@ -135,6 +137,11 @@ func (c *ArrivalConn) Write(p []byte) (int, error) {
 		m.Arrivals = append(m.Arrivals, r)
 		n = len(m.Arrivals)
 		reply := m.Dev.Answer(m.F, p)
+		if m.ExcFor != nil {
+			if code := m.ExcFor(r); code != 0 {
+				reply = spec.EncodeResponse(m.F, spec.Resp{FC: r.FC, Unit: r.Unit, Tx: r.Tx, IsException: true, Code: code})
+			}
+		}
 		c.pending = append(c.pending, reply...)
 		c.owner = r
 		c.readyAt = time.Time{}
